@@ -156,7 +156,14 @@ Inductive keyset :=
 | KSRemote (cached : list jwk) (served : option (list jwk)) (skip : bool)
     (* rp.remoteKeySet: cache content, what the JWKS endpoint serves now
        (None = fetch fails), SkipRemoteCheck option *)
-| KSProfile (client : string) (store : list (string * string * jwk)).
+| KSProfile (client : string) (store : list (string * string * jwk))
+| KSStatic (k : jwk).
+    (* a caller-supplied oidc.KeySet that verifies under one fixed key whatever the
+       header says (e.g. the shared secret of an HS* configuration) *)
+
+(* key sets that select among PUBLISHED keys (use / type / kid rules apply) *)
+Definition published (ks : keyset) : bool :=
+  match ks with KSOpenID _ | KSRemote _ _ _ => true | _ => false end.
     (* op.jwtProfileKeySet: storage of (client id, key id) -> key *)
 
 Definition ks_keys (ks : keyset) : list jwk :=
@@ -166,6 +173,7 @@ Definition ks_keys (ks : keyset) : list jwk :=
   | KSRemote c None _ => c
   | KSRemote c (Some s) _ => c ++ s
   | KSProfile _ store => map snd store
+  | KSStatic k => [k]
   end.
 
 Fixpoint profile_lookup (store : list (string * string * jwk)) (client kid : string) : option jwk :=
@@ -239,6 +247,7 @@ Section Verify.
     | KSOpenID keys => openid_verify keys e p
     | KSRemote c s skip => remote_verify c s skip e p
     | KSProfile client store => profile_verify client store e p
+    | KSStatic k => if verify k e p then Some k else None
     end.
 
   (* oidc.CheckSignature(token, payload:=parsed, supportedSigAlgs:=allowed, set:=ks);
